@@ -1,10 +1,197 @@
-(* C06 - Modifying an LP in place equals building the modified LP from scratch.  Property theorems only. *)
+(* C06 - Modifying an LP in place equals building the modified LP from scratch.
+   Property theorems only; each is closed by [exact] of a lemma of LPOps_Proofs.v.
+
+   Vocabulary (LPOpsModel.v / LPOps_Proofs.v):
+     state, op, step, run        the solver object as far as C06 observes it and the ~40 calls of the real interface
+     valid_op / valid_run        the call (every call of a history) is inside the documented domain when it is made:
+                                 indices in range, vectors of matching dimension, sparse vectors without repeated indices
+     Mir P S                     files P and S hold the same entries ((i,x) in vector k of P  <->  (k,x) in vector i of S),
+                                 no vector has a repeated index, no stored value is an exact zero
+     LInv l                      Mir (row file) (column file) and all attribute vectors have the dimension of their file
+     abs / spec_apply / aeq      abstraction to a dense LP (m, n, lhs, rhs, user objective, bounds, sense, matrix as a total
+                                 function that is zero outside m x n), the two-line specification of every call on it, and
+                                 equality of dense LPs (matrix compared pointwise) *)
 From Coq Require Import ZArith List Bool Arith.
 From SV Require Import Dbl LPOpsModel LPOps_Proofs.
 Import ListNotations.
+Local Open Scope nat_scope.
 
-(* every call that goes through _invalidateSolution leaves no cached solution and status UNKNOWN *)
-Theorem C06_modify_invalidates : forall s o, modifies o = true ->
-  hasSol (fst (step s o)) = false /\ stat (fst (step s o)) = 0%Z.
+(* ---------------------------------------------------------------------------------------------------------
+   mirrored_inv: in every state reachable by any valid history - from the empty LP or from any LP that satisfies
+   the invariant - the row file and the column file represent the same matrix without duplicate indices. *)
+Theorem C06_mirrored_inv_step :
+  forall s o, SInv s -> valid_op (nrows (L s)) (ncols (L s)) o = true -> SInv (fst (step s o)).
+Proof. exact step_SInv. Qed.
+Print Assumptions C06_mirrored_inv_step.
+
+Theorem C06_mirrored_inv :
+  forall ops s, SInv s -> valid_run s ops = true -> SInv (run s ops).
+Proof. exact run_SInv. Qed.
+Print Assumptions C06_mirrored_inv.
+
+Theorem C06_mirrored_inv_from_empty :
+  forall mx eps inf ops, eps_ok eps = true -> valid_run (init mx eps inf) ops = true ->
+    LInv (L (run (init mx eps inf) ops)).
+Proof. exact run_LInv_from_empty. Qed.
+Print Assumptions C06_mirrored_inv_from_empty.
+
+(* both files give the same dense entry *)
+Theorem C06_mirror_same_entries :
+  forall P S k i, Mir P S -> sget i (nth k P []) = sget k (nth i S []).
+Proof. exact mir_sget. Qed.
+Print Assumptions C06_mirror_same_entries.
+
+(* ---------------------------------------------------------------------------------------------------------
+   refines_dense: every call commutes with the abstraction to the dense LP; so does every history. *)
+Theorem C06_refines_dense :
+  forall s o, SInv s -> valid_op (nrows (L s)) (ncols (L s)) o = true ->
+    aeq (abs (L (fst (step s o)))) (spec_apply (inf s) (eps s) (pmax s) (abs (L s)) o).
+Proof. exact step_refines_L. Qed.
+Print Assumptions C06_refines_dense.
+
+Theorem C06_refines_dense_history :
+  forall ops s, SInv s -> valid_run s ops = true ->
+    aeqs (abs_state (run s ops)) (spec_run (inf s) (eps s) (abs_state s) ops).
+Proof. exact run_refines_self. Qed.
+Print Assumptions C06_refines_dense_history.
+
+(* ---------------------------------------------------------------------------------------------------------
+   remove_perm_spec: the perm array after removeRowsReal(perm) / removeColsReal(perm): removed elements keep their
+   negative mark, a survivor i is found at perm[i] with its data, survivors keep their relative order, and nothing
+   else is left. *)
+Theorem C06_remove_perm_spec_rows :
+  forall perm l, LInv l -> length perm = nrows l ->
+  let l' := fst (remove_rows perm l) in
+  let np := snd (remove_rows perm l) in
+  length np = length perm /\
+  (forall i, (nth i perm (-1) < 0)%Z -> nth i np (-1)%Z = nth i perm (-1)%Z) /\
+  (forall i, i < length perm -> (0 <= nth i perm (-1))%Z ->
+     exists q, nth i np (-1)%Z = Z.of_nat q /\ q < nrows l' /\
+               nth q (lhs l') dzero = nth i (lhs l) dzero /\ nth q (rhs l') dzero = nth i (rhs l) dzero /\
+               nth q (rf l') [] = nth i (rf l) []) /\
+  (forall i1 i2, i1 < i2 -> i2 < length perm -> (0 <= nth i1 perm (-1))%Z -> (0 <= nth i2 perm (-1))%Z ->
+     (nth i1 np (-1) < nth i2 np (-1))%Z) /\
+  (forall q, q < nrows l' -> exists i, i < length perm /\ (0 <= nth i perm (-1))%Z /\ nth i np (-1)%Z = Z.of_nat q).
+Proof. exact remove_rows_spec. Qed.
+Print Assumptions C06_remove_perm_spec_rows.
+
+Theorem C06_remove_perm_spec_cols :
+  forall perm l, LInv l -> length perm = ncols l ->
+  let l' := fst (remove_cols perm l) in
+  let np := snd (remove_cols perm l) in
+  length np = length perm /\
+  (forall j, (nth j perm (-1) < 0)%Z -> nth j np (-1)%Z = nth j perm (-1)%Z) /\
+  (forall j, j < length perm -> (0 <= nth j perm (-1))%Z ->
+     exists q, nth j np (-1)%Z = Z.of_nat q /\ q < ncols l' /\
+               nth q (obj l') dzero = nth j (obj l) dzero /\ nth q (lo l') dzero = nth j (lo l) dzero /\
+               nth q (up l') dzero = nth j (up l) dzero /\ nth q (cf l') [] = nth j (cf l) []) /\
+  (forall j1 j2, j1 < j2 -> j2 < length perm -> (0 <= nth j1 perm (-1))%Z -> (0 <= nth j2 perm (-1))%Z ->
+     (nth j1 np (-1) < nth j2 np (-1))%Z) /\
+  (forall q, q < ncols l' -> exists j, j < length perm /\ (0 <= nth j perm (-1))%Z /\ nth j np (-1)%Z = Z.of_nat q).
+Proof. exact remove_cols_spec. Qed.
+Print Assumptions C06_remove_perm_spec_cols.
+
+(* removal by index list / by range: the buffer holds -1 exactly for the listed / enclosed elements *)
+Theorem C06_remove_idx_marks_minus_one :
+  forall n idx i, i < n -> existsb (Nat.eqb i) idx = true -> nth i (newperm (idx_to_perm n idx) 0) (-1)%Z = (-1)%Z.
+Proof. exact idx_removed_minus_one. Qed.
+Print Assumptions C06_remove_idx_marks_minus_one.
+
+Theorem C06_remove_range_marks_minus_one :
+  forall n a b i, i < n -> a <= i -> i <= b -> nth i (newperm (range_to_perm n a b) 0) (-1)%Z = (-1)%Z.
+Proof. exact range_removed_minus_one. Qed.
+Print Assumptions C06_remove_range_marks_minus_one.
+
+(* ---------------------------------------------------------------------------------------------------------
+   single_removal_moves_last: removeRowReal(i) / removeColReal(j) move the last element into the hole and leave
+   every other number unchanged. *)
+Theorem C06_single_removal_moves_last_row :
+  forall i l, LInv l -> i < nrows l ->
+  let l' := remove_row i l in
+  nrows l' = nrows l - 1 /\ ncols l' = ncols l /\
+  (forall k, k < nrows l - 1 -> k <> i ->
+     nth k (lhs l') dzero = nth k (lhs l) dzero /\ nth k (rhs l') dzero = nth k (rhs l) dzero /\
+     nth k (rf l') [] = nth k (rf l) []) /\
+  (i < nrows l - 1 ->
+     nth i (lhs l') dzero = nth (nrows l - 1) (lhs l) dzero /\ nth i (rhs l') dzero = nth (nrows l - 1) (rhs l) dzero /\
+     nth i (rf l') [] = nth (nrows l - 1) (rf l) []) /\
+  obj l' = obj l /\ lo l' = lo l /\ up l' = up l.
+Proof. exact remove_row_moves_last. Qed.
+Print Assumptions C06_single_removal_moves_last_row.
+
+Theorem C06_single_removal_moves_last_col :
+  forall j l, LInv l -> j < ncols l ->
+  let l' := remove_col j l in
+  ncols l' = ncols l - 1 /\ nrows l' = nrows l /\
+  (forall k, k < ncols l - 1 -> k <> j ->
+     nth k (obj l') dzero = nth k (obj l) dzero /\ nth k (lo l') dzero = nth k (lo l) dzero /\
+     nth k (up l') dzero = nth k (up l) dzero /\ nth k (cf l') [] = nth k (cf l) []) /\
+  (j < ncols l - 1 ->
+     nth j (obj l') dzero = nth (ncols l - 1) (obj l) dzero /\ nth j (lo l') dzero = nth (ncols l - 1) (lo l) dzero /\
+     nth j (up l') dzero = nth (ncols l - 1) (up l) dzero /\ nth j (cf l') [] = nth (ncols l - 1) (cf l) []) /\
+  lhs l' = lhs l /\ rhs l' = rhs l.
+Proof. exact remove_col_moves_last. Qed.
+Print Assumptions C06_single_removal_moves_last_col.
+
+(* ---------------------------------------------------------------------------------------------------------
+   modify_invalidates: every modifier leaves no cached solution and status UNKNOWN. *)
+Theorem C06_modify_invalidates :
+  forall s o, modifies o = true -> hasSol (fst (step s o)) = false /\ stat (fst (step s o)) = 0%Z.
 Proof. exact modify_invalidates_l. Qed.
 Print Assumptions C06_modify_invalidates.
+
+(* ---------------------------------------------------------------------------------------------------------
+   the sense the LP is optimised with is the OBJSENSE parameter, in every reachable state of the specified
+   behaviour ... *)
+Theorem C06_sense_follows_parameter :
+  forall ops s, lmax (L s) = pmax s -> lmax (L (run s ops)) = pmax (run s ops).
+Proof. exact run_sense_sync. Qed.
+Print Assumptions C06_sense_follows_parameter.
+
+(* ... but not with clearLPReal as it is coded (SPxLPBase::clear resets the sense to MAXIMIZE): reported defect *)
+Theorem C06_clear_as_coded_keeps_sense_refuted :
+  exists s, lmax (L s) = pmax s /\ lmax (L (clear_as_coded s)) <> pmax (clear_as_coded s).
+Proof. exact clear_as_coded_desync. Qed.
+Print Assumptions C06_clear_as_coded_keeps_sense_refuted.
+
+(* ---------------------------------------------------------------------------------------------------------
+   Examples: the hypotheses are satisfiable by non-trivial histories, and what the theorems say about them. *)
+Definition ex_eps : dbl := DFin 1 (-53).
+Definition ex_inf : dbl := DFin 1 333.
+Definition d (z : Z) : dbl := DFin z 0.
+
+(* two columns; a row that mentions a column that does not exist yet (implicit growth); a column that creates a row;
+   changeElement that deletes; removal of rows 0 and 2 by index list; a single column removal; sense change *)
+Definition ex_ops : list op :=
+  [ AddCols [ (d 1, d 0, d 4, []); (d (-2), d 0, ex_inf, []) ];
+    AddRow (d (-1), d 5, [(0, d 2); (3, d 7); (1, d 0)]);
+    AddCol (d 3, d (-1), d 1, [(2, d 5); (0, d (-4))]);
+    ChgElem 0 3 (DFin 1 (-60));
+    AddRows [ (d 0, d 0, [(4, d 1)]); (d 1, d 2, [(0, d 9)]) ];
+    Optimize 1 true;
+    RemRowsIdx [2; 0];
+    RemCol 1;
+    SetSense false;
+    ChgObj 0 (d 6) ].
+
+Example ex_valid : valid_run (init true ex_eps ex_inf) ex_ops = true.
+Proof. vm_compute. reflexivity. Qed.
+
+Example ex_eps_ok : eps_ok ex_eps = true.
+Proof. reflexivity. Qed.
+
+(* the final LP: 3 rows, 4 columns; the old last column (number 4) now has number 1 *)
+Example ex_result :
+  let s := run (init true ex_eps ex_inf) ex_ops in
+  (nrows (L s), ncols (L s), nnz (L s)) = (3, 4, 2) /\ uobj (L s) = [d 6; d 3; d 0; d 0] /\
+  hasSol s = false /\ stat s = 0%Z /\ lmax (L s) = false.
+Proof. vm_compute. repeat split; reflexivity. Qed.
+
+(* the perm array of the index-list removal in that history *)
+Example ex_perm :
+  snd (step (run (init true ex_eps ex_inf) (firstn 6 ex_ops)) (RemRowsIdx [2; 0])) = [(-1)%Z; 0%Z; (-1)%Z; 1%Z; 2%Z].
+Proof. vm_compute. reflexivity. Qed.
+
+(* a call outside the documented domain is recognised as such (repeated index in a sparse vector) *)
+Example ex_invalid : valid_op 0 0 (AddRow (d 0, d 1, [(0, d 1); (0, d 2)])) = false.
+Proof. reflexivity. Qed.
